@@ -86,6 +86,9 @@ func FailoverConfig(options ...Option) (config Config) {
 	config.OnFailure = func(ctx context.Context) {
 		clientContext := core.GetClientContext(ctx)
 		urls := clientContext.Client().URLs
+		if len(urls) == 0 {
+			return
+		}
 		next := urls[getIndex(&index, int64(len(urls)))]
 		if cur := clientContext.URL; len(urls) > 1 && cur != nil && (next == cur || next.String() == cur.String()) {
 			// the index is shared by all calls and may have come round to
